@@ -5,8 +5,9 @@ CONSTANTS
   Files <- TombThorough
   MaxOps = 2
   CrashPts <- Points
+  KeepPts <- KeepAll
   KeepHist = FALSE
   Mode = "tomb"
-INVARIANTS TypeOK HidesExactly MemoryIsDurable AtomicTombstoneCommit IndexConsistent
+INVARIANTS TypeOK HidesExactly MemoryIsDurable AtomicTombstoneCommit StaleTmpHarmless IndexConsistent
 VIEW View
 CHECK_DEADLOCK FALSE
